@@ -87,6 +87,15 @@ FIXED_ATOMS = [
     {"kind": "text", "fam": "pattern-on-number", "col": "hardlinks", "op": "!=~", "lit": "1"},
     {"kind": "text", "fam": "pattern-on-number", "col": "modified", "op": "like", "lit": "2020-01-02%"},
     {"kind": "text", "fam": "pattern-on-number", "col": "is_file", "op": "like", "lit": "t%"},
+    # a number or a date compared with ANOTHER always-present column whose value is neither: the condition may mean
+    # little, but it and its negation still divide the entries between them
+    {"kind": "colcol", "col": "size", "op": ">", "lit": "name"},
+    {"kind": "colcol", "col": "size", "op": "<=", "lit": "name"},
+    {"kind": "colcol", "col": "size", "op": ">=", "lit": "ext"},
+    {"kind": "colcol", "col": "modified", "op": ">=", "lit": "name"},
+    {"kind": "colcol", "col": "modified", "op": "<", "lit": "path"},
+    {"kind": "colcol", "col": "length(name)", "op": ">", "lit": "name"},
+    {"kind": "colcol", "col": "hardlinks", "op": "=", "lit": "name"},
 ]
 # the same literal text under three operator families (glob, LIKE, regex) - each compiles to a different matcher
 SHARED = [
